@@ -70,7 +70,9 @@ CLAIMS.update({
                 "caller's region, never an image's clip region (multi-rectangle branch, contract stubs for translate/intersect).",
         "note": "Sequential contracts cannot decide schedules: determinism under interleaving is NOT decided. Writes through pointers are not tracked. "
                 "The allow-list in props/C16.py is trusted.",
-        "technique": "contract-style frame fact read off the goto-cc symbol table and goto functions (no schedule exploration)",
+        "technique": "contract-based deductive verification of the sequential frame premise only: CBMC 6.11 contract harnesses (validate leaves clean images "
+                     "untouched, composite-region computation writes only the caller's region) + a frame fact read off the goto-cc symbol table and "
+                     "goto functions; no schedule exploration",
     },
     "C17": {
         "text": "Glyph cache as a map under any history: with the table shrunk by the guarded hook to 4 (quick) / 8 (thorough) slots and its whole "
